@@ -1,2 +1,2 @@
-import sys; sys.path.insert(0,'/tmp/fixes'); from edit import rep
+import sys; sys.path.insert(0,'/verif/tools'); from edit import rep
 rep('segno/utils.py', "if i == 8 and (j < 9 or (not is_micro and j > width - 10))", "if i == 8 and (j < 9 or (not is_micro and j > width - 9))")
